@@ -66,6 +66,37 @@ def bounded(tier, seed):
                 samples.append({"expression": str(e)[:140], "type": str(t)})
             if len(failures) >= 6:
                 break
+        # directed family: constants beyond the range of a float (the statement says "any magnitude") next to bounded, half-bounded and unbounded
+        # operands.  The inferred type must exist, have exact bounds and contain the values at sampled leaves.
+        HUGE = [10 ** 400, -(10 ** 400), Fraction(10 ** 400, 3), 2 ** 1024]
+        leaves = [g.x, g.z, g.y, g.s_]           # bounded int, half-bounded int, bounded real, unbounded int (see ExprGen)
+        for h in HUGE:
+            hc = Int(h) if isinstance(h, int) else Real(h)
+            for leaf in leaves:
+                for nm, mk in (("plus", lambda a, b: Plus(a, b)), ("plus'", lambda a, b: Plus(b, a)), ("minus", lambda a, b: Minus(a, b)),
+                               ("minus'", lambda a, b: Minus(b, a)), ("times", lambda a, b: Times(a, b)), ("times'", lambda a, b: Times(b, a, a)),
+                               ("div", lambda a, b: Div(a, b))):
+                    evals += 1
+                    try:
+                        e = mk(leaf(), hc)
+                        t = e.type
+                    except OverflowError as ex:
+                        what = (f"type inference raised OverflowError for a well-formed expression with a constant beyond the float range and an operand "
+                                f"without {'lower or upper' if leaf().type.lower_bound is None and leaf().type.upper_bound is None else 'one'} bound "
+                                f"[huge-constant:OverflowError:{nm.rstrip(chr(39))}]")
+                        if what not in {f["what"] for f in failures}:
+                            failures.append({"what": what, "concrete": {"operation": nm, "leaf": str(leaf().type), "constant": str(h)[:30] + "..."}, "observed": repr(ex)})
+                        continue
+                    lo, hi = t.lower_bound, t.upper_bound
+                    for b in (lo, hi):
+                        if b is not None and not isinstance(b, (int, Fraction)):
+                            failures.append({"what": f"inferred bound {b!r} is a {type(b).__name__}, not an exact rational", "concrete": {"expression": str(e)[:80]}, "observed": str(t)[:80]})
+                    for _ in range(3):
+                        lk = g.interp(within_types=True)
+                        v = ev(e, lk, {}, g.pr)
+                        if (lo is not None and v < lo) or (hi is not None and v > hi):
+                            failures.append({"what": "value outside the inferred interval (huge constant)", "concrete": {"operation": nm, "leaf": str(leaf().type)}, "observed": None})
+                            break
         # symmetry of well-formedness of Equals over sample operands of every kind
         ops = [Int(5), Real(Fraction(1, 2)), TRUE(), g.x(), g.y(), g.q(), g.p(g.objs[0]), g.loc(g.objs[0])] + [em_obj for em_obj in map(lambda o: g.pr.environment.expression_manager.ObjectExp(o), g.objs)]
         for _ in range(2):      # twice: the second round runs after the rejected constructions of the first
@@ -85,7 +116,7 @@ def bounded(tier, seed):
                 if r3 != r1:
                     failures.append({"what": f"Equals({a}, {b}) was {'accepted' if r1 else 'rejected'} first and {'accepted' if r3 else 'rejected'} when repeated",
                                      "concrete": {"a": str(a), "b": str(b)}, "observed": [r1, r3]})
-    return {"evaluations": evals, "distinct_nontrivial": len(nontrivial), "failures": failures[:8],
+    return {"evaluations": evals, "distinct_nontrivial": len(nontrivial), "failures": failures[:12],
             "rule": f"{n} random numeric expressions (depth <= 3) over bounded / half-bounded fluents, 4 type-respecting interpretations "
                     f"each (bounds as extreme values); Equals symmetry over all ordered pairs of 11 operands, twice; non-trivial = "
                     f"expression with at least one inferred bound", "samples": samples, "bound": f"{n} expressions"}
